@@ -192,6 +192,9 @@ class OpMachine:
                 q = self.round_qty(abs(float(p.qty)) * st.choice([0.1, 0.3, 0.6, 1.0], 'frac'))
                 if st.chance(0.3, 'raw'):
                     q = abs(float(p.qty)) * st.choice([0.25, 0.5, 1.0], 'rawf')
+        if fut and p.is_open and ((p.qty > 0) != (side == 'buy')) and st.chance(self.spec.get('p_no_flip', 0.7), 'noflip'):
+            # most opposite-side orders stay within the position (a flip is one more event kind, not the main course)
+            q = min(q, self.round_qty(abs(float(p.qty)) * st.choice([0.3, 0.6, 1.0], 'nff')) or q)
         if q <= 0:
             return {'op': 'mark', 'sym': s, 'k': cur_k}
         if not fut and side == 'sell' and not self.spec.get('spot_plain_sells', True):
